@@ -1,4 +1,5 @@
 import PV.C08.Spec
+import PV.Lexer.Lemmas
 /-
   PV.C08.Lemmas — helper lemmas for PV.C08.Thm: fuel-free reading of the lexer run, splicing of runs,
   one lemma per lexer arm that a layout rule touches, the CR/CRLF folding walk.
@@ -573,5 +574,267 @@ theorem softKw_erased (mode : Mode) {l l' : List Spanned} (h : l.map (·.tok) = 
     rw [this l, this l', h]
   unfold softKw
   rw [← softKwGo_zero l, ← softKwGo_zero l', hz]
+
+
+/-! ## whole texts -/
+
+/-- the run of the lexer on a whole text (after the BOM skip of `Lexer::new`), fuel-free, ranges erased -/
+def LexRun (cfg : Cfg) (src : List Nat) (ts : List Tok) (e : EndK) : Prop :=
+  match src with
+  | 0xFEFF :: rest => RunsTo cfg .init rest ts e
+  | _ => RunsTo cfg .init src ts e
+
+theorem LexRun_noBom {cfg : Cfg} {src : List Nat} (h : src.head? ≠ some 0xFEFF) (ts e) :
+    LexRun cfg src ts e ↔ RunsTo cfg .init src ts e := by
+  unfold LexRun
+  split
+  · simp at h
+  · rfl
+
+/-- `lexRawFuel` before its overflow / panic filter -/
+def lexCore (cfg : Cfg) (fuel start : Nat) (src : List Nat) : LexOut :=
+  match src with
+  | 0xFEFF :: rest => lexAll cfg fuel .init rest 1 (start + 3)
+  | _ => lexAll cfg fuel .init src 0 start
+
+theorem lexCore_bom (cfg : Cfg) (fuel start : Nat) (rest : List Nat) :
+    lexCore cfg fuel start (0xFEFF :: rest) = lexAll cfg fuel .init rest 1 (start + 3) := rfl
+
+theorem lexCore_noBom (cfg : Cfg) (fuel start : Nat) {src : List Nat} (h : src.head? ≠ some 0xFEFF) :
+    lexCore cfg fuel start src = lexAll cfg fuel .init src 0 start := by
+  unfold lexCore
+  split
+  · simp at h
+  · rfl
+
+theorem panicFilter (A : LexOut) :
+    (if A.reachedB > u32Max then none
+      else match A.fin with
+        | .err .panic _ _ => none
+        | _ => some A) =
+    if A.reachedB > u32Max then none else if eraseEnd A.fin = .err .panic then none else some A := by
+  by_cases ho : A.reachedB > u32Max
+  · simp [ho]
+  · simp only [ho, ↓reduceIte]
+    cases hA : A.fin with
+    | eof => simp [eraseEnd]
+    | outOfFuel => simp [eraseEnd]
+    | err k c b => cases k <;> simp [eraseEnd]
+
+theorem lexRawFuel_eq (cfg : Cfg) (fuel start : Nat) (src : List Nat) :
+    lexRawFuel cfg fuel start src =
+      (if (lexCore cfg fuel start src).reachedB > u32Max then none
+       else if eraseEnd (lexCore cfg fuel start src).fin = .err .panic then none
+       else some (lexCore cfg fuel start src)) := by
+  by_cases h : src.head? = some 0xFEFF
+  · obtain ⟨rest, rfl⟩ : ∃ rest, src = 0xFEFF :: rest := by
+      cases src with
+      | nil => simp at h
+      | cons c r => exact ⟨r, by simp at h; rw [h]⟩
+    rw [lexCore_bom, ← panicFilter]
+    rfl
+  · rw [lexCore_noBom cfg fuel start h, ← panicFilter]
+    unfold lexRawFuel
+    split
+    · simp at h
+    · rfl
+
+theorem lexCore_run (cfg : Cfg) (fuel start : Nat) (src : List Nat)
+    (h : (lexCore cfg fuel start src).fin ≠ .outOfFuel) :
+    LexRun cfg src (eraseOut (lexCore cfg fuel start src)).1 (eraseOut (lexCore cfg fuel start src)).2 := by
+  by_cases hb : src.head? = some 0xFEFF
+  · obtain ⟨rest, rfl⟩ : ∃ rest, src = 0xFEFF :: rest := by
+      cases src with
+      | nil => simp at hb
+      | cons c r => exact ⟨r, by simp at hb; rw [hb]⟩
+    exact lexAll_runsTo cfg fuel _ _ _ _ h
+  · rw [LexRun_noBom hb]
+    rw [lexCore_noBom cfg fuel start hb] at h ⊢
+    exact lexAll_runsTo cfg fuel _ _ _ _ h
+
+
+/-! ## termination and size (from the step contract `PV.Lexer.step_ok` of the C05 builder) -/
+
+theorem lexAll_fuel {cfg : Cfg} (hs : cfg.up.Sane) : ∀ (fuel : Nat) (st : LexState) (inp : List Nat) (cb bb : Nat),
+    StInv st → inp.length < fuel → (lexAll cfg fuel st inp cb bb).fin ≠ .outOfFuel := by
+  intro fuel
+  induction fuel with
+  | zero => intro st inp cb bb _ h; omega
+  | succ f ih =>
+    intro st inp cb bb hi hl
+    unfold lexAll
+    split
+    · simp
+    · rename_i o ho
+      obtain ⟨h1, h2, _, h4, _⟩ := step_ok hs hi ho
+      by_cases hd : o.done = true
+      · simp [hd]
+      · have hd' : o.done = false := by simpa using hd
+        have := h2 hd'
+        simp only [hd, Bool.false_eq_true, ↓reduceIte]
+        exact ih _ _ _ _ h4 (by simp; omega)
+
+theorem utf8Len_append (a b : List Nat) : utf8Len (a ++ b) = utf8Len a + utf8Len b := by
+  induction a with
+  | nil => simp [utf8Len]
+  | cons c a ih => simp [utf8Len, ih, Nat.add_assoc]
+
+theorem utf8Len_take_add_drop (n : Nat) (l : List Nat) : utf8Len (l.take n) + utf8Len (l.drop n) = utf8Len l := by
+  rw [← utf8Len_append, List.take_append_drop]
+
+theorem lexAll_reached {cfg : Cfg} (hs : cfg.up.Sane) : ∀ (fuel : Nat) (st : LexState) (inp : List Nat) (cb bb : Nat),
+    StInv st → (lexAll cfg fuel st inp cb bb).reachedB ≤ bb + utf8Len inp := by
+  intro fuel
+  induction fuel with
+  | zero => intro st inp cb bb _; simp [lexAll]
+  | succ f ih =>
+    intro st inp cb bb hi
+    unfold lexAll
+    split
+    · rename_i e he
+      have := utf8Len_take_add_drop e.reached inp
+      simp; omega
+    · rename_i o ho
+      obtain ⟨h1, h2, _, h4, _⟩ := step_ok hs hi ho
+      have hh := utf8Len_take_add_drop o.consumed inp
+      by_cases hd : o.done = true
+      · simp [hd]; omega
+      · simp only [hd, Bool.false_eq_true, ↓reduceIte]
+        have := ih o.st (inp.drop o.consumed) (cb + o.consumed) (bb + utf8Len (inp.take o.consumed)) h4
+        omega
+
+/-- the lexer terminates within `length + 1` steps and never reports a position beyond the text -/
+theorem lexCore_regular {cfg : Cfg} (hs : cfg.up.Sane) (start : Nat) (src : List Nat) :
+    (lexCore cfg (src.length + 1) start src).fin ≠ .outOfFuel ∧
+    (lexCore cfg (src.length + 1) start src).reachedB ≤ start + utf8Len src := by
+  by_cases hb : src.head? = some 0xFEFF
+  · obtain ⟨rest, rfl⟩ : ∃ rest, src = 0xFEFF :: rest := by
+      cases src with
+      | nil => simp at hb
+      | cons c r => exact ⟨r, by simp at hb; rw [hb]⟩
+    rw [lexCore_bom]
+    refine ⟨lexAll_fuel hs _ _ _ _ _ stInv_init (by simp; omega), ?_⟩
+    have := lexAll_reached hs (rest.length + 1 + 1) .init rest 1 (start + 3) stInv_init
+    simp [utf8Len, csize] at this ⊢
+    omega
+  · rw [lexCore_noBom cfg _ start hb]
+    exact ⟨lexAll_fuel hs _ _ _ _ _ stInv_init (by simp), lexAll_reached hs _ _ _ _ _ stInv_init⟩
+
+
+/-- CR/CRLF folding leaves the run unchanged (proved by the folding walk) -/
+def EolInv (cfg : Cfg) : Prop :=
+  ∀ st x ts e, RunsTo cfg st x ts e ↔ RunsTo cfg st (foldEol x) ts e
+
+theorem foldEol_bom (r : List Nat) : foldEol (0xFEFF :: r) = 0xFEFF :: foldEol r := by
+  rw [foldEol.eq_def]; simp
+
+theorem foldEol_head_bom {a : List Nat} (h : (foldEol a).head? = some 0xFEFF) : ∃ r, a = 0xFEFF :: r := by
+  rw [foldEol.eq_def] at h
+  split at h <;> simp_all
+
+theorem layoutStep_run {cfg : Cfg} (hup : UpOk cfg.up) (hf : cfg.fullLexer = false) (heol : EolInv cfg)
+    {a b : List Nat} (h : LayoutStep cfg a b) (ts : List Tok) (e : EndK) :
+    LexRun cfg a ts e ↔ LexRun cfg b ts e := by
+  cases h with
+  | eol hab =>
+    by_cases hb : a.head? = some 0xFEFF
+    · obtain ⟨ra, rfl⟩ : ∃ r, a = 0xFEFF :: r := by
+        cases a with
+        | nil => simp at hb
+        | cons c r => exact ⟨r, by simp at hb; rw [hb]⟩
+      rw [foldEol_bom] at hab
+      obtain ⟨rb, rfl⟩ := foldEol_head_bom (a := b) (by rw [← hab]; rfl)
+      rw [foldEol_bom] at hab
+      have hab' : foldEol ra = foldEol rb := by simpa using hab
+      show RunsTo cfg .init ra ts e ↔ RunsTo cfg .init rb ts e
+      rw [heol _ ra, heol _ rb, hab']
+    · have hb' : b.head? ≠ some 0xFEFF := by
+        intro hbb
+        obtain ⟨rb, rfl⟩ : ∃ r, b = 0xFEFF :: r := by
+          cases b with
+          | nil => simp at hbb
+          | cons c r => exact ⟨r, by simp at hbb; rw [hbb]⟩
+        rw [foldEol_bom] at hab
+        obtain ⟨ra, rfl⟩ := foldEol_head_bom (a := a) (by rw [hab]; rfl)
+        simp at hb
+      rw [LexRun_noBom hb, LexRun_noBom hb', heol _ a, heol _ b, hab]
+  | bom hne =>
+    rw [LexRun_noBom hne]
+    rfl
+  | blankLine ha hb hbol hw hc he hn =>
+    rw [LexRun_noBom ha.1, LexRun_noBom hb.1]
+    rename_i pre post w c e' st ts'
+    have key := rule_linePrefix hf hbol (w ++ c ++ e') post (eatIndent_blankLine hw hc he hn)
+    have hb2 : Runs cfg .init (pre ++ ((w ++ c ++ e') ++ post)) ts' pre.length st := by
+      simpa [List.append_assoc] using hb.2
+    have := splice ha.2 hb2 key ts e
+    simpa [List.append_assoc] using this
+  | blankTail ha hb hbol hw hc =>
+    rw [LexRun_noBom ha.1, LexRun_noBom hb.1]
+    rename_i w c st ts'
+    have key := rule_linePrefix hf hbol (w ++ c) [] (eatIndent_blankTail hw hc)
+    have ha2 : Runs cfg .init (a ++ []) ts' a.length st := by simpa using ha.2
+    have hb2 : Runs cfg .init (a ++ ((w ++ c) ++ [])) ts' a.length st := by simpa using hb.2
+    have := splice ha2 hb2 key ts e
+    simpa using this
+  | formFeed ha hb hbol hw =>
+    rw [LexRun_noBom ha.1, LexRun_noBom hb.1]
+    rename_i pre post w st ts'
+    have key := rule_linePrefix hf hbol (w ++ [12]) post (eatIndent_formFeed hw)
+    have hb2 : Runs cfg .init (pre ++ ((w ++ [12]) ++ post)) ts' pre.length st := by
+      simpa [List.append_assoc] using hb.2
+    have := splice ha.2 hb2 key ts e
+    simpa [List.append_assoc] using this
+  | blanks ha hb hbol hw =>
+    rw [LexRun_noBom ha.1, LexRun_noBom hb.1]
+    exact splice ha.2 hb.2 (rule_blanks hup hbol hw _) ts e
+  | commentAfter ha hb hbol hc hp =>
+    rw [LexRun_noBom ha.1, LexRun_noBom hb.1]
+    exact splice ha.2 hb.2 (rule_commentAfter hup hf hbol hc hp) ts e
+  | backslashJoin ha hb hbol he hn hp =>
+    rw [LexRun_noBom ha.1, LexRun_noBom hb.1]
+    rename_i pre post e' st ts'
+    have hb2 : Runs cfg .init (pre ++ ((92 :: e') ++ post)) ts' pre.length st := by simpa using hb.2
+    have := splice ha.2 hb2 (fun t k => by simpa using rule_backslashJoin hup hbol he hn hp t k) ts e
+    simpa using this
+  | bracketBreak ha hb hbol hnest he hn =>
+    rw [LexRun_noBom ha.1, LexRun_noBom hb.1]
+    exact splice ha.2 hb.2 (rule_bracketBreak hup hf hbol hnest he hn) ts e
+
+
+theorem LexRun.det {cfg : Cfg} {src ts e ts' e'} (h : LexRun cfg src ts e) (h' : LexRun cfg src ts' e') :
+    ts = ts' ∧ e = e' := by
+  by_cases hb : src.head? = some 0xFEFF
+  · obtain ⟨rest, rfl⟩ : ∃ rest, src = 0xFEFF :: rest := by
+      cases src with
+      | nil => simp at hb
+      | cons c r => exact ⟨r, by simp at hb; rw [hb]⟩
+    exact RunsTo.det h h'
+  · rw [LexRun_noBom hb] at h h'
+    exact RunsTo.det h h'
+
+/-- from equal runs to equal `lex` results (ranges erased), for texts whose end offset fits `u32` -/
+theorem lex_eq_of_runs {cfg : Cfg} (hs : cfg.up.Sane) {a b : List Nat}
+    (h : ∀ ts e, LexRun cfg a ts e ↔ LexRun cfg b ts e) (mode : Mode) (start : Nat)
+    (ha : start + utf8Len a ≤ u32Max) (hb : start + utf8Len b ≤ u32Max) :
+    eraseRanges (lex cfg mode start a) = eraseRanges (lex cfg mode start b) := by
+  obtain ⟨fa, ra⟩ := lexCore_regular hs start a
+  obtain ⟨fb, rb⟩ := lexCore_regular hs start b
+  have hA := lexCore_run cfg _ start a fa
+  have hB := lexCore_run cfg _ start b fb
+  obtain ⟨ht, he⟩ := LexRun.det ((h _ _).1 hA) hB
+  have oa : ¬ (lexCore cfg (a.length + 1) start a).reachedB > u32Max := by omega
+  have ob : ¬ (lexCore cfg (b.length + 1) start b).reachedB > u32Max := by omega
+  unfold lex lexRaw
+  rw [lexRawFuel_eq, lexRawFuel_eq]
+  simp only [oa, ob, ↓reduceIte]
+  simp only [eraseOut] at ht he
+  generalize lexCore cfg (a.length + 1) start a = A at *
+  generalize lexCore cfg (b.length + 1) start b = B at *
+  have hsk := softKw_erased mode ht
+  rw [he]
+  by_cases hp : eraseEnd B.fin = .err .panic
+  · simp [hp, eraseRanges]
+  · simp [hp, eraseRanges, eraseOut, hsk, he]
 
 end PV.C08
